@@ -157,6 +157,35 @@ def regOfJson (j : Json) (field : String) : Except String (String → Option Val
     | .dict kvs => pure (fun name => Val.dlookup kvs (.s name))
     | _ => throw "registry must be a dict"
 
+def ctorOfName : String → Option Val.Ctor
+  | "none" => some .none | "bool" => some .bool | "int" => some .int | "flt" => some .flt | "str" => some .str
+  | "list" => some .list | "tuple" => some .tuple | "dict" => some .dict | "fn" => some .fn | _ => none
+
+/-- the class's tables: the extracted ones plus the types a generated subclass adds to `types_mapping` -/
+def tablesOfJson (j : Json) (base : Tables) : Except String Tables := do
+  let ej := (j.getObjVal? "env").toOption.getD (Json.mkObj [])
+  match ej.getObjVal? "extraTypes" with
+  | .error _ => pure base
+  | .ok a =>
+    let extra ← (← jarr a).toList.mapM fun t => do
+      let p ← jarr t
+      let name ← jstr p[0]!
+      let row ← (← jarr p[1]!).toList.mapM fun c => do
+        let q ← jarr c
+        match ctorOfName (← jstr q[0]!) with
+        | some ct => pure (ct, (← q[1]!.getBool?))
+        | none => throw "bad ctor"
+      pure (name, row)
+    pure { base with typeTable := base.typeTable ++ extra }
+
+/-- custom rules of generated subclasses (twin of harness/props/c16.py) -/
+def customRuleOf (flag : Val) (rule : String) (c v : Val) : Option (List String) :=
+  match rule with
+  | "is_odd" =>
+    some (if c.truthy then (match v with | .int n => if n % 2 == 0 then ["must be odd"] else [] | _ => []) else [])
+  | "needs_cfg" => some (if Val.pyEq c flag then [] else ["configuration not inherited"])
+  | _ => none
+
 def envOfJson (j : Json) : Except String Env := do
   let ej := (j.getObjVal? "env").toOption.getD (Json.mkObj [])
   let rxs ← match ej.getObjVal? "rx" with
@@ -168,6 +197,10 @@ def envOfJson (j : Json) : Except String Env := do
   let rulesSets ← regOfJson ej "rulesSets"
   let schemas ← regOfJson ej "schemas"
   let named := (ej.getObjVal? "named").toOption.bind (·.getBool?.toOption) |>.getD false
+  let custom := (ej.getObjVal? "custom").toOption.bind (·.getBool?.toOption) |>.getD false
+  let flag ← match ej.getObjVal? "flag" with
+    | .ok v => valOfJson v
+    | .error _ => pure Val.none
   pure {
     rx := fun pat s => (rxs.find? (fun t => t.1 == pat && t.2.1 == s)).map (·.2.2)
     coerce := Family.coerce
@@ -175,6 +208,7 @@ def envOfJson (j : Json) : Except String Env := do
     setter := setterOfName
     hasSetter := fun n => named && (n == "s_one" || n == "s_raise")
     checker := Family.checker
+    customRule := if custom then customRuleOf flag else fun _ _ _ => none
     rulesSets := rulesSets
     schemas := schemas }
 
@@ -210,7 +244,7 @@ def portValidate0 (j : Json) : Except String Json := do
   let fuel := (j.getObjVal? "fuel").toOption.bind (·.getNat?.toOption) |>.getD 40
   let ctx : Ctx := { cfg := cfg }
   let useRef := (j.getObjVal? "ref").toOption.bind (·.getBool?.toOption) |>.getD false
-  let t := if useRef then refTables else Extracted.tables
+  let t ← tablesOfJson j (if useRef then refTables else Extracted.tables)
   pure (outcomeToJson (validate0 env t fuel ctx schema doc upd))
 
 def docOutcomeToJson (r : M (List (Key × Val) × List Err)) : Json :=
@@ -231,9 +265,10 @@ def portNormalize (full : Bool) (j : Json) : Except String Json := do
   let upd := (j.getObjVal? "update").toOption.bind (·.getBool?.toOption) |>.getD false
   let fuel := (j.getObjVal? "fuel").toOption.bind (·.getNat?.toOption) |>.getD 40
   let ctx : Ctx := { cfg := cfg }
+  let t ← tablesOfJson j Extracted.tables
   match doc with
   | .dict kvs =>
-    if full then pure (docOutcomeToJson (validateN env Extracted.tables fuel ctx schema kvs upd))
+    if full then pure (docOutcomeToJson (validateN env t fuel ctx schema kvs upd))
     else pure (docOutcomeToJson (normalize env fuel ctx schema kvs))
   | _ => throw "doc must be a dict"
 
